@@ -57,3 +57,8 @@ Print Assumptions c03_sound.
 Example c03_nonvacuous :
   propagate_judgements [(0, 0); (0, 1); (1, 1); (2, 2)] [true; false; true] = Some [false; false; true].
 Proof. vm_compute. reflexivity. Qed.
+
+(* the worklist always terminates within its fuel: the verdict is defined for every graph and marking *)
+Theorem c03_worklist_total : forall E ml, exists r, propagate_judgements E ml = Some r.
+Proof. exact propagate_judgements_total. Qed.
+Print Assumptions c03_worklist_total.
